@@ -68,6 +68,9 @@ type Host struct {
 	generation int
 	// after InitChain and before the first Commit the genesis state lives in the deliver state only
 	genesisPending bool
+	genesisState   []byte
+	genesisHeight  int64
+	genesisTime    time.Time
 }
 
 func newApp(db dbm.DB) *simapp.SimApp {
@@ -161,6 +164,7 @@ func NewHost(cfg *Config) *Host {
 }
 
 func (h *Host) initChain(state []byte, initialHeight int64, t time.Time) {
+	h.genesisState, h.genesisHeight, h.genesisTime = state, initialHeight, t
 	h.app.InitChain(abci.RequestInitChain{
 		ChainId:         h.chain,
 		Time:            t,
@@ -231,6 +235,11 @@ func (h *Host) Restart() {
 	h.callbacks = nil
 	h.registerForeign()
 	h.inBlock = false
+	if h.genesisPending {
+		// nothing was ever committed: the node starts from its genesis file again
+		h.initChain(h.genesisState, h.genesisHeight, h.genesisTime)
+		return
+	}
 	h.header = tmproto.Header{ChainID: h.chain, Height: h.app.LastBlockHeight(), Time: h.header.Time}
 }
 
